@@ -409,7 +409,7 @@ def _ev_json(h):
 def _ev_from_json(h):
     if h[0] == "new":
         return ("new", tuple((kv[0], kv[1]) for kv in h[1]))
-    return (h[0], h[1])
+    return tuple(h)
 
 
 def check_observation(chk, fam, case, q, m, hsd, grid, ref, adm, small, slope, o, cf_tol, inverse_expected):
@@ -665,11 +665,416 @@ def check_antenna(chk, case):
     if a2.shape != (2, 3) or np.any(a2.ravel() != a[:6]):
         bad("shape", "2d_array", a2.shape, (2, 3))
 
+    def not_above_boresight(grp, c, gg, w):
+        if np.any(gg > G * (1 + 1e-2)):
+            chk.fail(("antenna_" + kind, grp, "gain_exceeds_boresight"), c, observed=float(gg.max()), expected=G)
+
+    idx = [0, 90, 200, 254, 300, 360, 420, 466, 520, 630, 720]     # -180, -135, -80, -53, -30, 0, 30, 53, 80, 135, 180
+    check_numeric_forms(chk, ("antenna_" + kind, "gain"), case, g.get_antenna_gain, ANGLES, idx,
+                        lambda w, eps: w * (1e-12 + FLOAT_FORM_C * eps * (1.0 + 0.2303 * Am)),
+                        extra=not_above_boresight)
+
 
 def antenna_cases():
     return ([{"part": "antenna", "kind": "sector", "arg": 3}, {"part": "antenna", "kind": "sector", "arg": 6}]
             + [{"part": "antenna", "kind": "omni", "arg": a} for a in (None, 0.0, 3.0, -2.5, 17)]
             + [{"part": "antenna", "kind": "invalid_sectors", "arg": a} for a in (0, 1, 4, 12)])
+
+
+
+# ----------------------------------------------------------------------
+# numeric forms of one grid of values: dtypes, layouts, scalar kinds
+# ----------------------------------------------------------------------
+FLOAT_DTYPES = (np.float64, np.float32, np.float16)
+INT_DTYPES = (np.int8, np.int16, np.int32, np.int64, np.uint8, np.uint16, np.uint32, np.uint64)
+FLOAT_FORM_C = 8.0      # float32/float16 inputs: tolerance FLOAT_FORM_C * eps(input dtype) (result precision follows the input)
+
+
+def numeric_forms(values, scalar_idx):
+    """[(kind, label, presented object, the same values as float64)] - every numeric dtype wide enough to
+    hold the values (integer dtypes get the integer-valued members in range), non-contiguous views,
+    Python / numpy scalars and 0-d arrays"""
+    v = np.asarray(values, dtype=float)
+    out = []
+    for dt in FLOAT_DTYPES:
+        a = v.astype(dt)
+        out.append(("array", dt.__name__, a, a.astype(float)))
+    isint = v == np.rint(v)
+    for dt in INT_DTYPES:
+        info = np.iinfo(dt)
+        sel = v[isint & (v >= info.min) & (v <= info.max)]
+        if sel.size:
+            out.append(("array", dt.__name__, sel.astype(dt), sel.copy()))
+    out.append(("view", "strided_float64", np.repeat(v, 2)[::2], v.copy()))
+    out.append(("view", "reversed_float64", v[::-1], v[::-1].copy()))
+    n2 = (v.size // 2) * 2
+    out.append(("view", "transposed_2d_float64", v[:n2].reshape(2, -1).T, v[:n2].reshape(2, -1).T.copy()))
+    i16 = v[isint & (np.abs(v) <= 32767)]
+    if i16.size:
+        out.append(("view", "strided_int16", np.repeat(i16.astype(np.int16), 2)[::2], i16.copy()))
+        out.append(("view", "strided_float32", np.repeat(v.astype(np.float32), 2)[::2],
+                    v.astype(np.float32).astype(float)))
+    for x in v[scalar_idx]:
+        x = float(x)
+        out.append(("scalar", "python_float", x, x))
+        if x == round(x):
+            out.append(("scalar", "python_int", int(x), x))
+        for dt in FLOAT_DTYPES:
+            y = dt(x)
+            out.append(("scalar", "numpy_" + dt.__name__, y, float(y)))
+            out.append(("0d", dt.__name__, np.array(x, dtype=dt), float(y)))
+        if x == round(x):
+            for dt in INT_DTYPES:
+                info = np.iinfo(dt)
+                if info.min <= x <= info.max:
+                    out.append(("scalar", "numpy_" + dt.__name__, dt(int(x)), x))
+                    out.append(("0d", dt.__name__, np.array(int(x), dtype=dt), x))
+    return out
+
+
+def form_group(label):
+    name = label.replace("numpy_", "").replace("strided_", "")
+    if name in ("int8", "uint8", "int16", "uint16"):
+        return "small_integer_dtype"
+    if name in ("int32", "uint32", "int64", "uint64"):
+        return "wide_integer_dtype"
+    if name in ("float16", "float32"):
+        return name
+    if name.startswith("python"):
+        return "python_scalar"
+    return "float64_layout"
+
+
+def form_eps(label):
+    name = label.replace("numpy_", "").replace("strided_", "")
+    if name == "float32":
+        return float(np.finfo(np.float32).eps)
+    if name == "float16":
+        return float(np.finfo(np.float16).eps)
+    return 0.0
+
+
+def _bytes(x):
+    return np.asarray(x).tobytes() if isinstance(x, np.ndarray) else None
+
+
+def check_numeric_forms(chk, sig0, case, f, values, scalar_idx, tol_of, extra=None, skip=None):
+    """f(presented) must equal f(the same values as a contiguous float64 array / Python float) within
+    tol_of(reference result, eps of the presented float dtype or 0); inputs must stay bit-identical"""
+    for kind, label, presented, ref_vals in numeric_forms(values, scalar_idx):
+        grp = form_group(label)
+        if skip is not None and skip(kind, label):
+            chk.count("excluded_float16_input_result_outside_half_precision_range")
+            continue
+        chk.count("eval_numeric_forms")
+        chk.outcome("numeric_form", (sig0[0], kind, label))
+        c = dict(case, form=kind, dtype=label, view=sig0[1])
+        before = _bytes(presented)
+        if isinstance(ref_vals, float):
+            want = _call(f, ref_vals)
+        else:
+            want = _call(f, np.array(ref_vals, dtype=float))
+        got = _call(f, presented)
+        if before is not None and _bytes(presented) != before:
+            chk.fail((sig0[0], grp, "input_modified"), c)
+        if want[0] not in ("v", "a"):
+            chk.fail((sig0[0], grp, "float64_reference_fails"), c, observed=want)
+            continue
+        if got[0] not in ("v", "a"):
+            chk.fail((sig0[0], grp, "raises_or_none"), c, observed=got, expected=_short(want))
+            continue
+        w = np.asarray(want[1], dtype=float)
+        g = np.asarray(got[1], dtype=float)
+        if g.shape != w.shape:
+            chk.fail((sig0[0], grp, "wrong_shape"), c, observed=g.shape, expected=w.shape)
+            continue
+        tol = tol_of(w, form_eps(label))
+        badm = ~(np.abs(g - w) <= tol)
+        if np.any(badm):
+            j = int(np.nonzero(badm.ravel())[0][0])
+            chk.fail((sig0[0], grp, "differs_from_float64_result"), c,
+                     observed="%s: %r at value %r (dtype %s)" % (sig0[1], g.ravel()[j],
+                                                                np.asarray(ref_vals).ravel()[j], label),
+                     expected="%r (tolerance %.3g)" % (w.ravel()[j], float(np.asarray(tol).ravel()[j if np.ndim(tol) else 0])))
+        if extra is not None:
+            extra(grp, c, g, w)
+
+
+FLOAT_FORM_DB_SCALE = 100.0   # dB: the loss is a sum of terms of this size, a low-precision log10 errs on that scale
+
+# numeric-form signatures name the implementation site, not the family (three families share one)
+SITE = {"general": "PathLossGeneral", "free_space": "PathLossGeneral", "3gpp1": "PathLossGeneral",
+        "metis_ps7": "PathLossMetisPS7", "okumura_hata": "PathLossOkomuraHata"}
+
+
+def _tol_db(w, eps):
+    return TOL_DB + FLOAT_FORM_C * eps * np.maximum(np.abs(w), FLOAT_FORM_DB_SCALE)
+
+
+def _tol_lin_pathloss(w, eps):
+    # linear = 10^(-dB/10): an error of e dB is a relative error of ln(10)/10 * e
+    db = np.abs(10.0 * np.log10(np.maximum(w, 1e-300)))
+    return w * (TOL_REL + FLOAT_FORM_C * eps * (1.0 + 0.2303 * np.maximum(db, FLOAT_FORM_DB_SCALE)))
+
+
+def check_pathloss_numeric_forms(chk, fam, hist):
+    """root states only: the admissible part of the distance grid (+ integer distances) in every numeric form"""
+    F = FAMILIES[fam]
+    st = build(fam, hist)
+    case = {"part": "dtype", "family": fam, "history": [_ev_json(h) for h in hist]}
+    if st.problem is not None:
+        return
+    chk.count("eval_states")
+    for q in (F["queries"][0], F["queries"][-1]) if len(F["queries"]) > 1 else (F["queries"][0],):
+        slope, offset = F["line"](st.model, q)
+        grid, _ = distances(F["lo"], slope, offset)
+        ints = np.array([1, 2, 5, 10, 20, 50, 100, 127, 128, 200, 255, 256, 500, 1000], dtype=float)
+        vals = np.array(sorted(set(grid.tolist()) | set(ints.tolist())))
+        vals = vals[slope * np.log10(vals) + offset > 1.0]     # clearly admissible in every precision
+        idx = np.unique(np.linspace(0, vals.size - 1, 7).astype(int)).tolist()
+        idx += [int(np.nonzero(vals == x)[0][0]) for x in (2.0, 100.0, 1000.0) if x in vals]
+        cq = dict(case, query=q)
+
+        def in_unit_interval(grp, c, g, w):
+            if np.any(~((g > 0) & (g <= 1.0))):
+                chk.fail((SITE[fam], grp, "linear_value_not_in_(0,1]"), c,
+                         observed=g[~((g > 0) & (g <= 1.0))][:4], expected=w[~((g > 0) & (g <= 1.0))][:4])
+
+        check_numeric_forms(chk, (SITE[fam], "loss_dB"), cq, lambda d: st.obj.calc_path_loss_dB(d, **q), vals, idx, _tol_db)
+        check_numeric_forms(chk, (SITE[fam], "loss_linear"), cq, lambda d: st.obj.calc_path_loss(d, **q), vals, idx,
+                            _tol_lin_pathloss, extra=in_unit_interval,
+                            skip=lambda kind, label: label.endswith("float16"))
+    if F["inverse"]:
+        pl = np.array([1.0, 10.0, 60.0, 100.0, 127.0, 150.0, 250.0])
+        check_numeric_forms(chk, (SITE[fam], "which_distance_dB"), case, st.obj.which_distance_dB, pl, [0, 2, 3, 6],
+                            lambda w, eps: w * (TOL_REL + FLOAT_FORM_C * eps * 60.0),
+                            skip=lambda kind, label: label.endswith("float16"))
+
+
+# ----------------------------------------------------------------------
+# queries as events: [query(d), toggle policy, query(d)], [query(d), caller mutates the result, query(d)] ...
+# ----------------------------------------------------------------------
+Q_ARRAYS = {
+    "mix": (1e-9, 1e-7, 1.5, 50.0, 700.0),        # contains distances below the minimum distance of every model
+    "adm": (2.0, 35.0, 900.0),
+    "pl": (10.0, 60.0, 100.0, 150.0),
+}
+Q_SETTERS = {
+    "general": [], "3gpp1": [],
+    "free_space": [("fc", 2400.0), ("n", 3.5)],
+    "metis_ps7": [("fc", 5000.0)],
+    "okumura_hata": [("fc", 1500.0), ("area_type", "open")],
+}
+Q_INITS = {
+    "general": [(("n", 2), ("C", 20.0)), (("n", 3.76), ("C", 128.1))],
+    "3gpp1": [()],
+    "free_space": [(("default", True),)],
+    "metis_ps7": [(("default", True),)],
+    "okumura_hata": [()],
+}
+
+
+def q_alphabet(fam):
+    ev = [("query", k, a) for k in ("dB", "lin") for a in ("mix", "adm")]
+    ev.append(("query", "dB", "adm_list"))
+    if FAMILIES[fam]["inverse"]:
+        ev.append(("query", "inv", "pl"))
+    ev.append(("mutate", "result"))
+    ev += [("handle_small_distances_bool", True), ("handle_small_distances_bool", False)]
+    ev += Q_SETTERS[fam]
+    inits = [(("new", a + (("hsd0", h),)),) for a in Q_INITS[fam] for h in (False, True)]
+    return inits, ev
+
+
+class QState:
+    def __init__(self):
+        self.obj = None
+        self.model = None
+        self.hsd = False
+        self.problem = None
+        self.arrays = {}
+        self.bytes = {}
+        self.last_result = None
+        self.last = None          # record of the last query event
+
+
+def q_expected(fam, model, hsd, kind, values):
+    """(tag, values, decided-mask) by the closed form"""
+    F = FAMILIES[fam]
+    slope, offset = F["line"](model, F["queries"][0])
+    v = np.asarray(values, dtype=float)
+    if kind == "inv":
+        return ("a", 10.0 ** ((v - offset) / slope), np.ones(v.shape, bool))
+    ref = slope * np.log10(v) + offset
+    small = ref < -ZERO_MARGIN_DB
+    decided = small | (ref > ZERO_MARGIN_DB)
+    if np.any(small) and not hsd:
+        return ("raise", "RuntimeError", None)
+    want = np.where(small, 0.0, ref)
+    if kind == "lin":
+        want = 10.0 ** (-want / 10.0)
+    return ("a", want, decided)
+
+
+def q_do(st, kind, arr):
+    """execute one query on the real object with the history's own array objects"""
+    obj = st.obj
+    if arr == "adm_list":
+        x = list(Q_ARRAYS["adm"])
+    else:
+        x = st.arrays[arr]
+    f = {"dB": obj.calc_path_loss_dB, "lin": obj.calc_path_loss, "inv": obj.which_distance_dB}[kind]
+    try:
+        r = f(x)
+    except Exception as e:  # noqa
+        return ("raise", type(e).__name__), None, x
+    return None, r, x
+
+
+def build_q(fam, hist):
+    F = FAMILIES[fam]
+    st = QState()
+    args = dict((k, v) for k, v in hist[0][1])
+    hsd0 = args.pop("hsd0", False)
+    st.obj = F["new"](args)
+    st.obj.handle_small_distances_bool = hsd0
+    st.hsd = hsd0
+    m = dict(F["defaults"])
+    m.update((k, v) for k, v in args.items() if k != "default")
+    st.model = m
+    st.arrays = {k: np.array(v, dtype=float) for k, v in Q_ARRAYS.items()}
+    st.bytes = {k: a.tobytes() for k, a in st.arrays.items()}
+    for ev in hist[1:]:
+        st.last = None
+        if ev[0] == "query":
+            _, kind, arr = ev
+            tag, r, x = q_do(st, kind, arr)
+            rec = dict(kind=kind, arr=arr, hsd=st.hsd, model=dict(m))
+            if tag is not None:
+                rec["result"] = tag
+                st.last_result = None
+            else:
+                rec["result"] = ("a", np.array(r, dtype=float, copy=True)) if isinstance(r, np.ndarray) \
+                    else (("none",) if r is None else ("other", type(r).__name__))
+                rec["aliases_input"] = isinstance(r, np.ndarray) and isinstance(x, np.ndarray) \
+                    and bool(np.shares_memory(r, x))
+                st.last_result = r if isinstance(r, np.ndarray) else None
+            rec["inputs_intact"] = all(st.arrays[k].tobytes() == st.bytes[k] for k in st.arrays)
+            st.last = rec
+        elif ev[0] == "mutate":
+            if st.last_result is not None:
+                st.last_result[...] = -3.25         # the caller scribbles over the array it was given
+        else:
+            attr, value = ev
+            setattr(st.obj, attr, value)
+            if attr == "handle_small_distances_bool":
+                st.hsd = value
+            else:
+                m[attr] = value
+    return st
+
+
+def _cmp_query(chk, fam, case, what, kind, got, exp, cf_tol):
+    """compare one query result (tag, array) with the closed-form expectation"""
+    if exp[0] == "raise":
+        if got != ("raise", exp[1]):
+            chk.fail((fam, what, "small_distance_does_not_raise", kind), case, observed=_short(got),
+                     expected=exp[1])
+        return
+    if got[0] != "a" or got[1].shape != exp[1].shape:
+        if got[0] == "raise" and what.endswith("adm_list"):
+            chk.fail((fam, "list_of_distances_rejected", got[1]), case, observed=got,
+                     expected="an array (the docstring of calc_path_loss_dB admits list[float])")
+        else:
+            chk.fail((fam, what, "fails_or_wrong_shape", kind), case, observed=_short(got), expected=_short(exp[:2]))
+        return
+    g, w, dec = got[1], exp[1], exp[2]
+    if kind == "dB":
+        ok = np.abs(g - w) <= cf_tol
+    else:
+        ok = np.abs(g - w) <= (TOL_REL + 0.2303 * (cf_tol - TOL_DB) * 1.001) * np.abs(w) * \
+            (1.0 if kind == "lin" else 1.0)
+    ok = ok | ~dec
+    if not np.all(ok):
+        j = int(np.nonzero(~ok)[0][0])
+        chk.fail((fam, what, "value", kind), case, observed=g, expected=w, msg="first wrong entry %d" % j)
+
+
+def check_query_state(chk, fam, hist, st):
+    F = FAMILIES[fam]
+    case = {"part": "query", "family": fam, "history": [_ev_json(h) for h in hist]}
+    chk.count("eval_query_states")
+    cf_tol = F["cf_tol"](st.model)
+    # ---- the last event, if it is a query ----
+    rec = st.last
+    if rec is not None:
+        chk.count("eval_query_events")
+        what = "query_%s" % rec["arr"]
+        vals = Q_ARRAYS["adm" if rec["arr"] == "adm_list" else rec["arr"]]
+        exp = q_expected(fam, rec["model"], rec["hsd"], rec["kind"], vals)
+        chk.outcome("query_outcome", (fam, rec["kind"], rec["arr"], rec["hsd"], exp[0]))
+        if len(hist) >= 3:
+            chk.nontriv((fam, "query") + tuple(hist[1:]))
+        if not rec["inputs_intact"]:
+            chk.fail((fam, what, "input_array_not_bit_identical_after_call"), case)
+        if rec.get("aliases_input"):
+            chk.fail((fam, what, "result_shares_memory_with_input"), case)
+        _cmp_query(chk, fam, case, what, rec["kind"], rec["result"], exp, cf_tol)
+    # ---- observation after the history, same array objects, against closed form and a fresh object ----
+    fresh = F["fresh"](st.model)
+    fresh.handle_small_distances_bool = st.hsd
+    kinds = [("dB", "mix"), ("lin", "mix"), ("dB", "adm"), ("lin", "adm")]
+    if F["inverse"]:
+        kinds.append(("inv", "pl"))
+    for kind, arr in kinds:
+        tag, r, _ = q_do(st, kind, arr)
+        got = tag if tag is not None else (("a", np.array(r, dtype=float, copy=True))
+                                           if isinstance(r, np.ndarray) else ("other", type(r).__name__))
+        exp = q_expected(fam, st.model, st.hsd, kind, Q_ARRAYS[arr])
+        _cmp_query(chk, fam, case, "observation_after_history_%s" % arr, kind, got, exp, cf_tol)
+        ff = {"dB": fresh.calc_path_loss_dB, "lin": fresh.calc_path_loss, "inv": fresh.which_distance_dB}[kind]
+        gf = _call(ff, np.array(Q_ARRAYS[arr], dtype=float))
+        chk.count("eval_differential")
+        if not _same(got, gf, 1e-12):
+            chk.fail((fam, "observation_after_history_differs_from_fresh_object", kind + "_" + arr), case,
+                     observed=_short(got), expected=_short(gf))
+    if any(st.arrays[k].tobytes() != st.bytes[k] for k in st.arrays):
+        chk.fail((fam, "observation_after_history", "input_array_not_bit_identical_after_call"), case)
+    # scalar forms of the same distances
+    for d in Q_ARRAYS["mix"]:
+        exp = q_expected(fam, st.model, st.hsd, "dB", [d])
+        got = _call(st.obj.calc_path_loss_dB, d)
+        if exp[0] == "raise":
+            if got != ("raise", "RuntimeError"):
+                chk.fail((fam, "observation_after_history_scalar", "small_distance_does_not_raise", "dB"),
+                         dict(case, d=d), observed=got, expected="RuntimeError")
+        elif exp[2][0] and (got[0] != "v" or not abs(got[1] - exp[1][0]) <= cf_tol):
+            chk.fail((fam, "observation_after_history_scalar", "value", "dB"), dict(case, d=d),
+                     observed=got, expected=exp[1][0])
+
+
+def run_query_family(chk, fam, depth):
+    inits, evs = q_alphabet(fam)
+
+    def b(hist):
+        return build_q(fam, hist)
+
+    def enabled(hist, st):
+        return [e for e in evs if e[0] != "mutate" or st.last_result is not None]
+
+    def invariant(hist, st):
+        case = {"part": "query", "family": fam, "history": [_ev_json(h) for h in hist]}
+        with chk.guard((fam, "query_history"), case):
+            with warnings.catch_warnings():
+                warnings.simplefilter("ignore")
+                check_query_state(chk, fam, hist, st)
+
+    def canon(hist, st):
+        # what a query leaves behind must not matter, so it cannot be part of a reference model:
+        # no merging, every history is its own state
+        return hist
+
+    bfs.BFS(chk, b, enabled, invariant, canon, depth, label=fam + "_queries").run(inits)
 
 
 # ----------------------------------------------------------------------
@@ -709,6 +1114,9 @@ def plan(chk):
     for i in range(n_general):
         jobs.append(("pathloss", "general", depth, [i]))
     jobs.append(("antenna", None, 0, None))
+    for fam in ("okumura_hata", "free_space", "metis_ps7", "general", "3gpp1"):
+        jobs.append(("query", fam, 4 if thorough else 3, None))
+    jobs.append(("dtype", None, 0, None))
     return jobs
 
 
@@ -722,6 +1130,12 @@ def main(chk: Check):
     chk.assume("Okumura-Hata large-city correction switches formula at fc > 300 MHz (docstring)")
     chk.assume("setters without documented validation (free-space n, fc; METIS fc) only get physically valid values")
     jobs = plan(chk)
+    thorough = chk.tier == "thorough"
+    chk.assume("float32/float16 inputs: the result may carry the precision of the input dtype (tolerance %g*eps of "
+               "that dtype); integer dtypes and Python numbers must give the float64 result; float16 distances are "
+               "excluded (counted) from the linear path-loss view and from which_distance_dB, whose values leave the "
+               "half-precision range"
+               % FLOAT_FORM_C)
     chk.extra["tolerances"] = {"TOL_DB": TOL_DB, "TOL_REL": TOL_REL, "FRIIS_DB_PER_N": FRIIS_DB_PER_N,
                                "ZERO_MARGIN_DB": ZERO_MARGIN_DB}
     chk.extra["depth"] = jobs[0][2]
@@ -731,6 +1145,18 @@ def main(chk: Check):
             part, fam, depth, sub = jobs[j]
             if part == "pathloss":
                 run_family(c, fam, depth, sub)
+            elif part == "query":
+                run_query_family(c, fam, depth)
+            elif part == "dtype":
+                for f2 in FAMILIES:
+                    inits = alphabet(f2, thorough)[0]
+                    for h in (inits if thorough else inits[:2]):
+                        case = {"part": "dtype", "family": f2, "history": [_ev_json(e) for e in h]}
+                        with c.guard((f2, "numeric_forms"), case):
+                            with warnings.catch_warnings():
+                                warnings.simplefilter("ignore")
+                                check_pathloss_numeric_forms(c, f2, h)
+                        c.states += 1
             else:
                 for case in antenna_cases():
                     with c.guard(("antenna_" + case["kind"],), case):
@@ -746,6 +1172,8 @@ def main(chk: Check):
         chk.require_outcomes("out_of_range_setter", 7)
         chk.require_outcomes("inverse_offered", 4)
         chk.require_outcomes("antenna", 8)
+        chk.require_outcomes("numeric_form", 100)
+        chk.require_outcomes("query_outcome", 30)
 
 
 def replay(case, chk: Check):
@@ -755,6 +1183,20 @@ def replay(case, chk: Check):
         return
     fam = case["family"]
     hist = tuple(_ev_from_json(h) for h in case["history"])
+    if case.get("part") == "query":
+        base = {"part": "query", "family": fam, "history": case["history"]}
+        with chk.guard((fam, "query_history"), base):
+            with warnings.catch_warnings():
+                warnings.simplefilter("ignore")
+                check_query_state(chk, fam, hist, build_q(fam, hist))
+        return
+    if case.get("part") == "dtype":
+        base = {"part": "dtype", "family": fam, "history": case["history"]}
+        with chk.guard((fam, "numeric_forms"), base):
+            with warnings.catch_warnings():
+                warnings.simplefilter("ignore")
+                check_pathloss_numeric_forms(chk, fam, hist)
+        return
     base = {"part": "pathloss", "family": fam, "history": case["history"]}
     with chk.guard((fam,), base):
         with warnings.catch_warnings():
